@@ -1,6 +1,6 @@
 SPECIFICATION Spec
 CONSTANTS
   SecUnits = 1000
-INVARIANTS FClearLoad FQuiesce FForeign FChain FHammer FUsedIsSum FBounded FAgree FLen FIndexExact FReclaimed FConservation FNeverTwice FMetrics FWorkersGone FOpsComplete FEstimates
+INVARIANTS FIndex FClearLoad FQuiesce FForeign FChain FHammer FUsedIsSum FBounded FAgree FLen FIndexExact FReclaimed FConservation FNeverTwice FMetrics FWorkersGone FOpsComplete FEstimates
 POSTCONDITION Accepted
 CHECK_DEADLOCK FALSE
